@@ -113,14 +113,16 @@ pub fn check(prg: &str) -> Result<TypedProgram, Error> {
 /// Scans, parses, type-checks and then compiles the `"main"` fn of a program to a Boolean circuit.
 pub fn compile(prg: &str) -> Result<GarbleProgram, Error> {
     let program = check(prg)?;
-    let (circuit, main) = program.compile("main")?;
+    // the sizes of the program's own `usize` consts are needed to encode / decode `[T; N]` values
+    let (circuit, main, const_sizes) =
+        program.compile_with_constants("main", HashMap::new(), &CompileOptions::default())?;
     let main = main.clone();
     Ok(GarbleProgram {
         program,
         main,
         circuit: CircuitType::Ssa(circuit),
         consts: HashMap::new(),
-        const_sizes: HashMap::new(),
+        const_sizes,
     })
 }
 
